@@ -113,7 +113,7 @@ Definition flags_of (nd : node) : list bool :=
   | NFlat _ _ FSqM =>        [false; false; false; false; true;  false; false]
   | NFlat _ _ FSqF =>        [true;  false; false; false; true;  false; false]
   | NJoin a b _ =>           [true;  false; negb (a =? b); false; false; false; false]
-  | NCat _ =>                [false; false; false; false; false; false; true]
+  | NCat _ =>                [true;  false; false; false; false; false; true]
   end.
 
 (* ---------------------------------------------------------------- calculators *)
